@@ -268,6 +268,12 @@ persistent_place(PersistentStorage *store, uint32_t address)
 void
 persistent_buffer(PersistentStorage *store, unsigned char *buffer, size_t n)
 {
+    if (n == 0u) {
+        /* A buffer without room cannot be used for chunked access, the loops
+         * using it would never make progress. Fall back to no buffer. */
+        buffer = NULL;
+        n = 1u;
+    }
     store->buffer.data = buffer;
     store->buffer.size = n;
 }
